@@ -52,6 +52,14 @@ SHAPES_MORE = [
 ]
 
 
+# second family: an interrupted change of db A that MOVES a collection, followed by changes of the EXISTING db B that
+# try to take what A releases / still holds (update and delete variants), and by changes of A itself
+B3, B13, B23, A2 = ["c3"], ["c1", "c3"], ["c2", "c3"], ["c2"]
+MOVE_SHAPES = [("A1B3", [op("I", "A", A1), op("I", "B", B3)]), ("A12B3", [op("I", "A", A12), op("I", "B", B3)])]
+MOVE_OPS = [op("U", "A", A2), op("U", "A", A1), op("D", "A")]
+MOVE_FOLLOWUPS = [op("U", "B", B13), op("U", "B", B23), op("U", "B", B3), op("D", "B"), op("U", "A", A1), op("U", "A", A12)]
+
+
 def run(ctx):
     quick = ctx.quick()
     fast = bool(os.environ.get("VERIF_C15_FAST"))      # development aid (binding only): no model checking, fewer schedules
@@ -69,6 +77,8 @@ def run(ctx):
     # ---- 3. crash-point enumeration + race replay on the real code
     shapes = SHAPES_QUICK if quick else SHAPES_QUICK + SHAPES_MORE
     plan = {"shapes": [{"name": n, "prep": p} for n, p in shapes], "ops": OPS, "followups": OPS,
+            "families": [{"name": "move", "shapes": [{"name": n, "prep": p} for n, p in MOVE_SHAPES], "ops": MOVE_OPS,
+                          "followups": MOVE_FOLLOWUPS, "stride": 6 if quick else 2}],
             "timeout_ms": 20, "bound_ms": 20000, "stride": 6 if quick else 2, "races": races}
     bf = os.path.join(ctx.scratch, "c15-plan.json")
     tr = os.path.join(ctx.scratch, "c15.ndjson")
@@ -132,7 +142,8 @@ def run(ctx):
         "scenario = prepared registry shape (clean, or carrying the marker of an earlier interrupted change) x operation "
         "(insert/update/delete of db A, and of db B whose collections overlap A's) with node 1 dying before its k-th storage write, "
         "for every k of the recording run; then node 2 loads (twice), runs every follow-up operation, loads - and each follow-up "
-        "directly on the unhealed state; plus two-node races forced through gates at storage-step granularity. "
+        "directly on the unhealed state; a second family of shapes/operations moves a collection between two existing databases; "
+        "a load interleaved with two complete operations of the other node that move a collection; plus two-node races forced through gates at storage-step granularity. "
         "non-trivial = the recovering node performed a roll-back / roll-forward / clean-up write")
     ctx.assumptions += [
         "a waiter gives up (configRetryTimeout) only when no live node is between its registry write and its config write for that database",
@@ -171,6 +182,41 @@ DIRECTED = [
     ("slow-writer/insert-waited-for", [S(1, "I", "A", A1)] + steps(1, 3) + [S(2, "U", "A", A12)] + steps(2, 4) + steps(1, 1) + steps(2, 6)),
     ("slow-writer/update-waited-for", [S(1, "I", "A", A1)] + steps(1, 4) + [S(1, "U", "A", A12)] + steps(1, 3) + [S(2, "L")] + steps(2, 2) + steps(1, 1) + steps(2, 3) + steps(1, 2)),
 ]
+
+
+def load_vs_move(p1, p2, p3, pair):
+    """a load on node 2 interleaved, at storage-step granularity, with two complete operations of node 1 that move a
+    collection between two existing databases: node 2 starts and reads the registry after p1 events of node 1, reads
+    the first config after p2, the next after p3; everything else runs afterwards"""
+    prep = [S(1, "I", "A", A12)] + steps(1, 4) + [S(1, "I", "B", B3)] + steps(1, 4)
+    ev = []
+    for o in pair:
+        ev += [o] + steps(1, 6)
+    ins = {}
+    for pos, what in ((p1, [S(2, "L")] + steps(2, 1)), (p2, steps(2, 1)), (p3, steps(2, 1))):
+        ins.setdefault(pos, []).extend(what)
+    out = list(prep)
+    for i in range(len(ev) + 1):
+        out += ins.get(i, [])
+        if i < len(ev):
+            out.append(ev[i])
+    return out
+
+
+MOVE_PAIRS = [("release-then-take", [S(1, "U", "A", A1), S(1, "U", "B", B23)]),
+              ("delete-then-take", [S(1, "D", "A"), S(1, "U", "B", B13)])]
+
+
+def load_family(ctx, quick, rnd):
+    res = []
+    for name, pair in MOVE_PAIRS:
+        n = 2 + 6 * len(pair)
+        allp = [(a, b, c) for a in range(n + 1) for b in range(a, n + 1) for c in range(b, n + 1)]
+        pick = rnd.sample(allp, 8 if quick else 120)
+        # always: registry and first config read before node 1 does anything, the second config after both operations
+        for (a, b, c) in [(0, 0, n), (0, 7, n)] + pick:
+            res.append(("load-vs-move/%s/%d-%d-%d" % (name, a, b, c), load_vs_move(a, b, c, pair)))
+    return res
 
 
 def to_schedule(beh):
@@ -214,6 +260,11 @@ def race_behaviours(ctx):
     for name, sched in DIRECTED:
         seen.add(json.dumps(sched, sort_keys=True))
         res.append({"id": name, "steps": sched})
+    for name, sched in load_family(ctx, quick, rnd):
+        k = json.dumps(sched, sort_keys=True)
+        if k not in seen:
+            seen.add(k)
+            res.append({"id": name, "steps": sched})
     if not quick:
         for name, sched in derive_counterexamples(ctx):
             add("cex/" + name, sched)
